@@ -208,16 +208,21 @@ def likeToks (esc : Option Char) : List Char → List PatTok
     else if c = '_' then .one :: likeToks esc cs
     else .ch c :: likeToks esc cs
 
-/-- backtracking matcher, structurally recursive on (pattern, then string) -/
+/-- does `f` accept some suffix of the string (the part left over after `%` swallowed a prefix)? -/
+def existsSuffix (f : List Char → Bool) : List Char → Bool
+  | [] => f []
+  | c :: cs => f (c :: cs) || existsSuffix f cs
+
+/-- backtracking matcher, structurally recursive on the pattern -/
 def likeMatch : List PatTok → List Char → Bool
-  | [], [] => true
-  | [], _ :: _ => false
-  | .any :: ps, [] => likeMatch ps []
-  | .any :: ps, c :: cs => likeMatch ps (c :: cs) || likeMatch (.any :: ps) cs
-  | .one :: _, [] => false
-  | .one :: ps, _ :: cs => likeMatch ps cs
-  | .ch _ :: _, [] => false
-  | .ch p :: ps, c :: cs => p == c && likeMatch ps cs
+  | [], s => s.isEmpty
+  | .any :: ps, s => existsSuffix (likeMatch ps) s
+  | .one :: ps, s => match s with
+    | [] => false
+    | _ :: cs => likeMatch ps cs
+  | .ch p :: ps, s => match s with
+    | [] => false
+    | c :: cs => p == c && likeMatch ps cs
 
 def asciiLower (c : Char) : Char := if 'A' ≤ c ∧ c ≤ 'Z' then Char.ofNat (c.toNat + 32) else c
 
